@@ -158,7 +158,7 @@ class FakeSock:
     def getpeername(self):
         if self.closed:
             raise OSError(errno.EBADF, "bad file descriptor")
-        if self.reset:
+        if self.reset or self.reset_after_drain:
             raise OSError(errno.ENOTCONN, "transport endpoint is not connected")     # as a real socket after a RST
         return self.raddr
 
